@@ -72,6 +72,47 @@ def eq_hash_ord(ctx, prog, tyname):
            "; ".join(why) or "%d comparisons" % len(comparisons), feq.loc())
     ctx.ob(R, "%s PartialEq: all fields of both operands take part" % tyname, seen_self == allf and seen_other == allf,
            "self: %s; other: %s" % (sorted(seen_self), sorted(seen_other)), feq.loc())
+    # ---- eq is the CONJUNCTION of those comparisons: a result other than `false` is produced only where every other comparison has
+    # already come out equal (no `||`-mixed reject, no early `true`)
+    from ..sym import path_conds, bool_atom, const_value as _cv
+    sites = []
+    for i, j, s in feq.stmts():
+        if s["s"] == "assign" and s["lhs"]["l"] == 0 and not s["lhs"]["p"]:
+            sites.append((i, strip(sy.rvalue(s["rv"]))))
+    for i, t in feq.calls():
+        if t["dest"]["l"] == 0 and not t["dest"]["p"]:
+            sites.append((i, strip(sy.call(t, i))))
+    keyset = set()
+    for a, b, sp in comparisons:
+        if param_fields(a, owner) or param_fields(b, owner):
+            keyset.add(frozenset((canon(strip(a)), canon(strip(b)))))
+    bad = []
+    n_res = 0
+    for blk, v in sites:
+        if v[0] == "const" and _cv(v) == 0:
+            continue
+        n_res += 1
+        if v[0] == "const":
+            bad.append("constant `true` at bb%d" % blk)
+            continue
+        have = set()
+        if v[0] == "call" and len(v[2]) == 2:
+            have.add(frozenset((canon(strip(v[2][0])), canon(strip(v[2][1])))))
+        elif v[0] == "bin" and v[1] == "Eq":
+            have.add(frozenset((canon(strip(v[2])), canon(strip(v[3])))))
+        for c in path_conds(feq, sy, blk):
+            a = bool_atom(c)
+            if not a:
+                continue
+            if a[0] == "Eq":
+                have.add(frozenset((canon(strip(a[1])), canon(strip(a[2])))))
+            elif a[0] == "truth" and a[2] is True and strip(a[1])[0] == "call" and len(strip(a[1])[2]) == 2:
+                have.add(frozenset((canon(strip(strip(a[1])[2][0])), canon(strip(strip(a[1])[2][1])))))
+        miss = [sorted(k) for k in keyset if k not in have]
+        if miss:
+            bad.append("result at bb%d does not require %s" % (blk, [m[0][:50] for m in miss][:3]))
+    ctx.ob(R, "%s PartialEq: the result is the conjunction of all its comparisons (every non-false result requires every other comparison to be equal)" % tyname,
+           not bad and n_res >= 1, "; ".join(bad) or "%d comparisons, %d non-false result site(s)" % (len(keyset), n_res), feq.loc())
     # ---- hash: fields fed are a subset of those compared by eq; everything comes from self
     sy = Sym(fh)
     fed = set()
